@@ -70,6 +70,9 @@ def gen_case(seed: int, prop: str, tier: str, fmt: str | None = None) -> dict:
         # fault-injecting configuration: a transient I/O error is armed before some requests (k-th read call from then on, on any
         # handle). The request may fail; repeated, it must return the right bytes (nothing wrong may have been remembered).
         case["eio"] = {str(rng.randrange(len(cops))): rng.choice([1, 1, 2, 3, 5]) for _ in range(rng.choice([1, 2, 3]))}
+        case["eio_kind"] = rng.choice(["eio", "eio", "eio_partial", "short_meta", "short_meta"])
+        if rng.random() < 0.4:
+            case["eio_open"] = rng.choice([1, 2, 3, 4, 6, 9])  # the fault meets the constructor: the k-th read call of the open
     if rng.random() < 0.12 and nsectors * 512 <= (64 << 20):
         # a twin: another image with the same geometry and the same identity fields (ids, UUIDs, CIDs - a backup copy or an
         # earlier state of the same disk) but other content and another placement, opened and read first in the same process.
@@ -139,6 +142,42 @@ def run_case(case: dict) -> RunResult:
     with world.fs, monitored():
         if case.get("twin"):
             viol = _read_twin(case, world, F, v)
+        if case.get("eio_open") and viol is None:
+            # fault-injecting configuration, open time: every handle created from now on fails its k-th read call. The open may
+            # fail; if it succeeds, what it serves must be right; either way the image is then opened again without a fault.
+            kind = case.get("eio_kind", "eio")
+            real_on = world.on_handle
+
+            def arming(h, spath, _k=case["eio_open"], _kind=kind):
+                real_on(h, spath)
+                h.eio_at, h.fault_kind = _k, _kind
+
+            world.on_handle = arming
+            f0 = world.io_faults_fired()
+            try:
+                with metered(STEP_LIMIT, "loop", world.step_allowance(STEP_LIMIT, 2.0, img.meta_bytes)):
+                    s1 = F.open(world, main, img, case["open"])
+                    if s1.size != size:
+                        viol = v("size", log.seq, f"opened while a read call failed: size {s1.size} != stored {size}")
+                    for op in case["cops"][:3]:
+                        if op[0] == "r" and viol is None:
+                            world.on_handle = real_on
+                            world.disarm_io_faults()
+                            s1.seek(op[1])
+                            got1 = s1.read(op[2])
+                            if got1 != view.expected(op[1], op[2]):
+                                viol = v("wrong-after-faulty-open", log.seq, f"{op}: an object whose constructor met an injected {kind} serves other bytes than the image holds")
+                log.add("acquirer", "open-under-fault", case["eio_open"], "ok")
+            except BudgetExceeded:
+                viol = v("budget", log.seq, "open under an injected fault did not finish within the step budget")
+            except Exception as e:
+                log.add("acquirer", "open-under-fault", case["eio_open"], "raised:" + type(e).__name__)
+                if world.io_faults_fired() == f0:
+                    viol = v("raised:" + type(e).__name__, log.seq, f"open raised {type(e).__name__}: {e}"[:300])
+            finally:
+                world.on_handle = real_on
+                world.disarm_io_faults()
+            world.probes["open_under_injected_io_fault"] += 1
         try:
             with metered(STEP_LIMIT, "loop", world.step_allowance(STEP_LIMIT, 2.0, img.meta_bytes)):
                 stream = F.open(world, main, img, case["open"])
@@ -155,16 +194,27 @@ def run_case(case: dict) -> RunResult:
             todo = []
             for i, op in enumerate(case["cops"]):
                 k = (case.get("eio") or {}).get(str(i))
+                if k:
+                    todo.append((op, None))  # warm: buffers and caches hold what the request needs
                 todo.append((op, k))
                 if k:
                     todo.append((op, None))  # the same request again, without a fault
+            warm_reads = []
             for op, arm in todo:
-                fired0 = world.faults_fired["eio_on_read"]
+                fired0 = world.io_faults_fired()
+                reads0 = [h.reads for _, h in world.handles]
                 if arm:
-                    for _, h in world.handles:
-                        if not h.closed:
-                            h.eio_at = h.reads + arm
-                    log.add("injector", "arm-eio", arm, None)
+                    # the attempt before this one (same request, no fault) showed which handles are read and how often: the fault
+                    # goes to one of those (handle, n-th read) pairs, later reads of a multi-read request preferred
+                    pairs = [(hi, j) for hi, n_reads in enumerate(warm_reads) for j in range(1, min(n_reads, 6) + 1)]
+                    pairs += [pr for pr in pairs if pr[1] >= 2] * 2
+                    if pairs:
+                        hi, j = pairs[(arm * 7919 + case["seed"]) % len(pairs)]
+                        h = world.handles[hi][1]
+                        h.eio_at, h.fault_kind = h.reads + j, case.get("eio_kind", "eio")
+                    else:
+                        world.arm_io_fault(arm, case.get("eio_kind", "eio"))
+                    log.add("injector", "arm-" + case.get("eio_kind", "eio"), arm, None)
                 try:
                     with metered(STEP_LIMIT, "loop", world.step_allowance(STEP_LIMIT, 2.0, img.meta_bytes + op[2] * 512)):
                         if op[0] == "r":
@@ -179,15 +229,16 @@ def run_case(case: dict) -> RunResult:
                     break
                 except Exception as e:
                     log.add("client", op[0], op[1:], "raised:" + type(e).__name__)
-                    if world.faults_fired["eio_on_read"] > fired0:
-                        world.probes["request_failed_on_injected_eio"] += 1
+                    if world.io_faults_fired() > fired0:
+                        world.probes["request_failed_on_injected_io_fault"] += 1
+                        world.disarm_io_faults()
                         continue
                     tb = traceback.extract_tb(e.__traceback__)[-1]
                     viol = v("raised:" + type(e).__name__, log.seq,
                              f"{op} raised {type(e).__name__}: {e} at {tb.filename.rsplit('/', 1)[-1]}:{tb.lineno}"[:300])
                     break
-                for _, h in world.handles:
-                    h.eio_at = None  # an armed fault that did not fire during its request is withdrawn
+                world.disarm_io_faults()  # an armed fault that did not fire during its request is withdrawn
+                warm_reads = [h.reads - (reads0[i] if i < len(reads0) else 0) for i, (_, h) in enumerate(world.handles)]
                 seq = log.add("client", op[0], op[1:], got)
                 want = view.expected(off, ln)
                 key = _state_key(case, view, off, ln, F)
